@@ -33,7 +33,61 @@ pub fn covered() -> Vec<&'static str> {
     COVERED.with(|c| c.borrow().clone())
 }
 
+thread_local! {
+    /// search mode (fallback when Kani's concrete playback is infeasible): the k-th `any()` call
+    /// takes candidate number `CHOICES[k]` of its type's candidate list
+    static SEARCH: RefCell<Option<SearchState>> = RefCell::new(None);
+}
+
+#[derive(Default, Clone)]
+pub struct SearchState {
+    pub choices: Vec<usize>,
+    pub limits: Vec<usize>,
+    pub next: usize,
+    pub taken: Vec<Vec<u8>>,
+}
+
+pub fn search_begin(choices: Vec<usize>) {
+    SEARCH.with(|s| *s.borrow_mut() = Some(SearchState { choices, ..Default::default() }));
+    COVERED.with(|c| c.borrow_mut().clear());
+}
+
+pub fn search_end() -> SearchState {
+    SEARCH.with(|s| s.borrow_mut().take().unwrap_or_default())
+}
+
+fn candidates(size: usize) -> Vec<Vec<u8>> {
+    match size {
+        1 => (0..=255u8).map(|b| vec![b]).collect(),
+        2 => [0u16, 1, 2, 3, 4, 5, 6, 7, 8, 255, 256, 1000, 65535].iter().map(|v| v.to_le_bytes().to_vec()).collect(),
+        4 => (0..=64u32).chain([255, 1000, u32::MAX - 1, u32::MAX]).map(|v| v.to_le_bytes().to_vec()).collect(),
+        8 => (0..=64u64).chain([255, 1000, u64::MAX]).map(|v| v.to_le_bytes().to_vec()).collect(),
+        n => vec![vec![0; n], vec![1; n], vec![0x20; n], vec![0xff; n]],
+    }
+}
+
 fn pop(size: usize) -> Vec<u8> {
+    let searched = SEARCH.with(|s| {
+        let mut s = s.borrow_mut();
+        let st = s.as_mut()?;
+        let c = candidates(size);
+        let k = st.next;
+        if k >= st.choices.len() {
+            st.choices.push(0);
+        }
+        if k >= st.limits.len() {
+            st.limits.push(c.len());
+        } else {
+            st.limits[k] = c.len();
+        }
+        st.next += 1;
+        let v = c[st.choices[k].min(c.len() - 1)].clone();
+        st.taken.push(v.clone());
+        Some(v)
+    });
+    if let Some(v) = searched {
+        return v;
+    }
     let v = VALUES.with(|v| v.borrow_mut().pop_front());
     match v {
         Some(v) if v.len() == size => v,
